@@ -127,13 +127,36 @@ fn is_ambiguous_value(s: &str, yaml_12: bool) -> bool {
         || s.eq_ignore_ascii_case("-inf")
 }
 
+/// Shapes that can never be written as a plain scalar, whatever the position:
+/// - a trailing space would be dropped by the parser,
+/// - a leading U+FEFF is taken for a byte-order mark,
+/// - `---` / `...` (alone or followed by a blank) are document markers at the start of a line.
+#[inline]
+fn is_unrepresentable_as_plain(s: &str) -> bool {
+    if s.ends_with(' ') || s.starts_with('\u{FEFF}') {
+        return true;
+    }
+    for marker in ["---", "..."] {
+        if let Some(rest) = s.strip_prefix(marker)
+            && (rest.is_empty() || rest.starts_with(' '))
+        {
+            return true;
+        }
+    }
+    false
+}
+
 /// Controls quoting behavior of the serializer.
 ///
 /// Returns true if `s` can be emitted as a plain scalar without quoting.
 /// Internal heuristic used by `write_plain_or_quoted`.
 #[inline]
 pub(crate) fn is_plain_safe(s: &str) -> bool {
-    if is_ambiguous(s) {
+    if is_ambiguous(s) || is_unrepresentable_as_plain(s) {
+        return false;
+    }
+    // An unquoted `<<` in key position is a merge key.
+    if s == "<<" {
         return false;
     }
     let bytes = s.as_bytes();
@@ -171,7 +194,7 @@ pub(crate) fn is_plain_safe(s: &str) -> bool {
 /// could be misinterpreted as a number or boolean.
 #[inline]
 pub(crate) fn is_plain_value_safe(s: &str, yaml_12: bool, in_flow: bool) -> bool {
-    if is_ambiguous_value(s, yaml_12) {
+    if is_ambiguous_value(s, yaml_12) || is_unrepresentable_as_plain(s) {
         return false;
     }
 
